@@ -10,7 +10,9 @@ RULE = ("EXHAUSTIVE over the mass table of /repo: for every tolerance in {0.01, 
         "order and the masses 1e-6 on either side of it; masses below / above the table (negative, 0, min-tol-1e-6, "
         "max+tol+1e-6, 1000, 1700, 1e6); lists of masses (all good / one bad); the same masses through the real "
         "load_lmpdat (data text with and without label comments, partial comments, several types, default and explicit "
-        "guess_atol) and the save_lmpdat -> load_lmpdat cycle for every element of the table (singly and in random groups). "
+        "guess_atol; also data texts with 10…30 atom types, every type used, atoms in shuffled type order) and the "
+        "save_lmpdat -> load_lmpdat cycle for every element of the table (singly, in random groups, in structures with "
+        "12…40 types and with all 117 elements at once). "
         "Non-trivial = distinct input in which some mass is not an exact table mass, or is the exact mass of an element "
         "that has a heavier element before it in table order (Ar/K, Co/Ni, Te/I, Th/Pa, U/Np, ...).")
 
@@ -320,14 +322,31 @@ def run(ctx, oracle_only=False):
         default = (tol == 0.1 and rng.random() < 0.5)
         load_case(ms, tol, comments, types, default, rng.random() < 0.5, "multi")
 
-    # 4. write/read cycle: every element alone, then random groups
+    # 3b. data texts with MANY atom types (10…30 distinct elements, two-digit type ids; every type used by an atom, atoms
+    #     in shuffled type order): type k's element must be the element nearest to the k-th mass of the file
+    for k in range(ctx.n(40, 400)):
+        n = rng.randint(10, 30) if k else 12
+        els = rng.sample(syms, n)
+        tol = rng.choice([0.1, 0.1, 0.01, 0.5])
+        ms = [float(masses[e]) + rng.choice([0.0, 0.0, tol / 2, -tol / 2]) for e in els]
+        if k % 5 == 4:          # one bad mass among many good ones: ALL types fall back to their numbers
+            ms[rng.randrange(n)] = rng.choice([13.0, 2.5, 1000.0, float(masses[rng.choice(syms)]) + 2 * tol + 0.37])
+        style = ["all", "none", "partial"][k % 3] if k % 5 != 3 else "all"
+        comments = [("%s_t%d" % (els[i], i + 1)) if (style == "all" or (style == "partial" and rng.random() < 0.6)) else None
+                    for i in range(n)]
+        types = list(range(n)) + [rng.randrange(n) for _ in range(rng.randint(0, 10))]
+        rng.shuffle(types)
+        load_case(ms, tol, comments, types, tol == 0.1 and k % 2 == 0, k % 4 == 1, "many-types")
+
+    # 4. write/read cycle: every element alone, random small groups, and structures with 12…40 atom types
     sep = separated(T, Fraction(1, 10))
     groups = [[s] for s in syms] + [rng.sample(syms, rng.randint(2, 6)) for _ in range(ctx.n(60, 1000))]
+    groups += [rng.sample(syms, rng.randint(12, 40)) for _ in range(ctx.n(25, 300))] + [list(syms)]
     for els in groups:
         r = real_roundtrip(els)
         inp = {"op": "roundtrip", "elements": list(els)}
         ctx.case(inp, nontrivial=bool(set(els) & ooo))
-        ctx.count("roundtrip:%s" % ("single" if len(els) == 1 else "group"))
+        ctx.count("roundtrip:%s" % ("single" if len(els) == 1 else "group" if len(els) < 12 else "12+types"))
         bad = oracle_roundtrip(T, sep, els, r)
         if bad:
             ctx.fail(bad, inp, observed={k: v for k, v in r.items() if k != "text"},
